@@ -254,6 +254,50 @@ func c02Check(ci any, o *core.Obs) {
 		o.NonTrivial()
 	}
 	canonicalChecks(o, "Settle", poly1, pts, 1e-7)
+	// (4b) Paths.Settle ("the same as Path.Settle, but faster if paths are already split"): the sub-paths
+	// are cut out of the raw data here, one Path each
+	{
+		var ps canvas.Paths
+		start := 0
+		for i := 0; i < len(c.P); {
+			n := 4
+			switch c.P[i] {
+			case 4:
+				n = 6
+			case 8, 16:
+				n = 8
+			}
+			if c.P[i] == 1 && i > start {
+				ps = append(ps, pathFrom(c.P[start:i]))
+				start = i
+			}
+			i += n
+		}
+		ps = append(ps, pathFrom(c.P[start:]))
+		var SP *canvas.Path
+		entryP := "Paths.Settle(" + ruleNames[c.Rule] + ")"
+		if !o.Call("Paths.Settle", func() { SP = ps.Settle(rule) }) {
+			return
+		}
+		if SP == nil {
+			o.Fail("nil", "%s returned nil", entryP)
+			return
+		}
+		polyP, err := refPolys(SP, 1e-9, true)
+		if err != nil {
+			o.Fail("malformed", "%s returned undecodable data: %v", entryP, err)
+			return
+		}
+		for _, x := range pts {
+			want := fillsRule(c.Rule, geom.Winding(x, polyIn))
+			got := geom.Winding(x, polyP) != 0
+			o.Decided(1)
+			if want != got {
+				o.Fail("region-paths", "%s of the %d sub-paths: point %v has input winding %d so filled=%v, but output fills=%v; output %s", entryP, len(ps), x, geom.Winding(x, polyIn), want, got, pstr(SP))
+				break
+			}
+		}
+	}
 	// (5) idempotence
 	var S2 *canvas.Path
 	if !o.Call("Path.Settle", func() { S2 = S1.Copy().Settle(canvas.NonZero) }) {
